@@ -15,6 +15,8 @@ structure CUCase where
   last : Nat
   fuel : Nat
   faults : List (Nat × Fault)
+  pipe : Bool
+  ops : List POp
 
 def pCfgLine (k : String) : P Cfg := do
   kw k; let m ← pBool; let rc ← pBool; let tr ← nat; let ma ← nat; let npv ← pBool
@@ -27,7 +29,8 @@ def pCUCase : P CUCase := do
   kw "NX"; let nx ← nat; let la ← nat
   kw "FU"; let fu ← nat
   kw "FT"; let fts ← many (do let k ← nat; let f ← pOrd; let c ← pOrd; pure (k, ((f, c) : Fault)))
-  pure ⟨lcf, ld, fcf, fd, nx, la, fu, fts⟩
+  kw "PL"; let pm ← pBool; let ops ← many (do let k ← nat; pure (if k = 0 then POp.send else POp.deliver))
+  pure ⟨lcf, ld, fcf, fd, nx, la, fu, fts, pm, ops⟩
 
 /-- the fault list the model consumes: position `k` holds the fault armed for exchange `k` -/
 def faultList (fts : List (Nat × Fault)) : List Fault :=
@@ -81,7 +84,7 @@ def cuJudge (caseLine implLine : String) : String :=
     let fb := boot c.fcf c.fd
     -- the clauses of the property, on what the implementation did
     let xs : List (Msg × View) := i.trace.filterMap (fun p => (msgOfEvent p.1).map (fun m => (m, p.2.view)))
-    let run : CU.Run := ⟨i.lobs.view, i.fobs.view, c.next, c.last, c.fuel, c.faults.isEmpty, xs, i.next, i.matched, i.stepDown⟩
+    let run : CU.Run := ⟨i.lobs.view, i.fobs.view, c.next, c.last, c.fuel, c.faults.isEmpty, xs, i.next, i.matched, i.stepDown, c.pipe⟩
     match CU.check run with
     | some b => "bad " ++ b
     | none =>
@@ -92,6 +95,17 @@ def cuJudge (caseLine implLine : String) : String :=
         | some d => s!"diff@follower-boot {d}"
         | none =>
           if lb.1.dead ∨ fb.1.dead then (if i.trace.isEmpty then "ok" else "diff@0 exchanges with a dead server")
+          else if c.pipe then
+            let fts := faultList c.faults
+            let p := pipelineRun c.lcf lb.1.d lb.1.v c.fuel fts fb.1 c.next c.ops
+            match cuWalk 0 fts p.trace i.trace with
+            | some d => d
+            | none =>
+              if (p.s.next, p.s.matched) ≠ (i.next, i.matched) then
+                s!"diff@end replication-state model=({p.s.next},{p.s.matched})"
+              else if p.stale ≠ i.stepDown then s!"diff@end stale model={p.stale}"
+              else if (!p.alive) ≠ i.stop then s!"diff@end pipeline-over model={!p.alive}"
+              else "ok"
           else
             let fts := faultList c.faults
             let r := replicateTo c.lcf lb.1.d lb.1.v c.last c.fuel fts fb.1 ⟨c.next, 0, 0, false⟩
